@@ -212,6 +212,12 @@ def execute(scn, world: World, plans: dict, res: Result, *, auto_heal: bool, rec
             k, op, plan = queue[qi]
             qi += 1
             do = op["do"]
+            if op.get("input_first"):
+                var, per, values = op["input_first"]
+                for target in (sim, twin):
+                    apply_op(target, world, ["set_input", var, per, values])
+                res.count("probe:heal_by_input")
+                H.add("R", "set_input", [var, per, values])
             before = readable(sim, env)
             if env.fs is not None:
                 env.fs.n["save"] = env.fs.n["load"] = 0
@@ -226,6 +232,7 @@ def execute(scn, world: World, plans: dict, res: Result, *, auto_heal: bool, rec
             else:
                 n_io = {"save": 0, "load": 0}
             kinds = list(CTX.kinds)
+            frames_now = list(CTX.frames)
             incomplete = {_key(world, vp) for vp in CTX.incomplete()}
             completed = {_key(world, vp) for vp in CTX.completed()}
             if record_sites is not None:
@@ -316,7 +323,17 @@ def execute(scn, world: World, plans: dict, res: Result, *, auto_heal: bool, rec
                         if canon_outcome(fout) != canon_outcome(out):
                             res.violate(clause, step, op=do, expected=canon_outcome(fout), got=canon_outcome(out), oracle="preloaded")
             if failed and fired and auto_heal and not op.get("heal"):
-                queue.insert(qi, (k, {"do": do, "heal": True}, None))
+                heal = {"do": do, "heal": True}
+                # Half of the retries first change an input the failed request had read
+                # ("the cause is removed" the way a user removes it: by supplying the
+                # missing input) - on the simulation and on its twin alike.  Only inputs
+                # whose every reader failed to complete qualify: a completed value that
+                # was computed from the old input legitimately stays what it is.
+                cands = _guard_inputs(world, frames_now, after)
+                if cands and (fired[0][0] if isinstance(fired[0][0], int) else len(kinds)) % 2 == 0:
+                    var, per = cands[0]
+                    heal["input_first"] = [var, per, _new_value(world.var_specs[var])]
+                queue.insert(qi, (k, heal, None))
             if failed and op.get("heal") and profile == "acyclic":
                 # the cause was removed and the request still fails: compare with the twin
                 tout = apply_op(twin, world, do)
@@ -334,6 +351,28 @@ def execute(scn, world: World, plans: dict, res: Result, *, auto_heal: bool, rec
         if spirals and any(k.startswith("fault:") for k in res.stats):
             res.count("probe:fault_in_a_run_with_a_spiral")
     return H
+
+
+def _guard_inputs(world, frames, after):
+    """(variable, period) of inputs-by-default the failed request read, all of whose
+    readers did not complete."""
+    readers: dict = {}
+    for f in frames:
+        for rec in f.reads:
+            var, period, opt, _val, raised = rec[:5]
+            spec = world.var_specs.get(var)
+            if spec is None or opt is not None or raised or spec["unit"] in ("eternity", "week", "weekday"):
+                continue
+            if spec.get("set_input") or spec.get("end") or spec["type"] == "enum":
+                continue
+            key = (var, str(period))
+            if not has_formula(world, var, key[1]) and key in after:
+                readers.setdefault(key, []).append(f.done)
+    return sorted(k for k, done in readers.items() if not any(done))
+
+
+def _new_value(spec):
+    return {"float": [7.5, 2.0], "int": [7, 2], "bool": [True, False], "date": ["2011-11-11"], "str": ["zz"]}[spec["type"]]
 
 
 def _key(world, vp):
